@@ -1651,6 +1651,8 @@ class EnumNode(AstNode):
 
         #        self.default_format(parent, format, kwargs)
         self.fmtdict = util.Scope(parent=parent.fmtdict)
+        if format:
+            self.fmtdict.update(format, replace=True)
 
         if not decl:
             raise RuntimeError("EnumNode missing decl")
